@@ -634,15 +634,50 @@ fn run(out: &mut Out, rng: &mut Rng, work: &str, cfg: &RunCfg, stats: &mut BTree
 		}
 	}
 	let _ = tip;
+	// non-steered runs: a fork G1-G2-G3 kept back for the out-of-order pattern (`orphan_pattern`):
+	// rooted two blocks below the best leaf, G1 and G2 carry no more work than the best leaf, G3 more
+	let mut gfork: Option<[usize; 3]> = None;
+	if !steer {
+		let best0 = *leaves.iter().max_by_key(|l| b.kit.blks[**l].work).unwrap();
+		let p1 = b.kit.blks[best0].parent;
+		let root = p1.and_then(|p| b.kit.blks[p].parent);
+		if let Some(root) = root {
+			let wb = b.kit.blks[best0].work;
+			if let Some(g1) = b.add(rng, root, 1, 2) {
+				if let Some(g2) = b.add(rng, g1, 1, 2) {
+					let d3 = wb - b.kit.blks[g2].work + rng.range(1, 3);
+					if let Some(g3) = b.add(rng, g2, d3, 2) {
+						if b.kit.blks[g1].work <= wb && b.kit.blks[g2].work <= wb && b.kit.blks[g3].work > wb {
+							gfork = Some([g1, g2, g3]);
+						}
+					}
+				}
+			}
+		}
+		if gfork.is_none() {
+			*b.stats.entry("steer:FAILED-no-orphan-pattern".into()).or_insert(0) += 1;
+		}
+	}
 	let kit = &b.kit;
 	let nblk = kit.blks.len();
-	// blocks delivered in the concurrent phase: all but X and Y (the last two built)
-	let n1 = match &xreorg {
-		Some((_, x, y, _)) => {
+	// blocks delivered in the concurrent phase: all but the ones kept back (the last ones built)
+	let n1 = match (&xreorg, &gfork) {
+		(Some((_, x, y, _)), _) => {
 			assert!(*x == nblk - 2 && *y == nblk - 1);
 			*x
 		}
-		None => nblk,
+		(None, Some(g)) => {
+			assert!(g[0] == nblk - 3 && g[2] == nblk - 1);
+			g[0]
+		}
+		_ => {
+			// a failed attempt may have left blocks behind: they are simply never delivered
+			let mut k = nblk;
+			while k > 1 && !leaves.iter().any(|l| path_to(kit, *l).contains(&(k - 1))) {
+				k -= 1;
+			}
+			k
+		}
 	};
 	let best = *leaves.iter().max_by_key(|l| kit.blks[**l].work).unwrap();
 
@@ -731,8 +766,9 @@ fn run(out: &mut Out, rng: &mut Rng, work: &str, cfg: &RunCfg, stats: &mut BTree
 	out.line(&format!("chain obs {}", twin_name), &twin_obs);
 	let twin_roots = twin.roots();
 	// the twin (never compacted) lives on for the cross-compaction reorg
-	let twin_keep = if xreorg.is_some() { Some(twin) } else { None };
+	let twin_keep = if xreorg.is_some() || gfork.is_some() { Some(twin) } else { None };
 	let mut xr_results: Vec<XrResult> = vec![];
+	let mut op_results: Vec<(usize, String, String)> = vec![];
 	if std::env::var("VERIF_DEBUG").is_ok() {
 		eprintln!("run {} build+twin {:?}", run, t_build.elapsed());
 	}
@@ -1048,6 +1084,10 @@ fn run(out: &mut Out, rng: &mut Rng, work: &str, cfg: &RunCfg, stats: &mut BTree
 			let r = cross_compaction_reorg(out, &shared, kit, *t_id, *x_id, *y_id, bs, run, n, stats);
 			xr_results.push(r);
 		}
+		if let Some(g) = &gfork {
+			let (o, r) = orphan_pattern(out, &shared, kit, *g, best, run, n, stats);
+			op_results.push((n, o, r));
+		}
 		if std::env::var("VERIF_DEBUG").is_ok() {
 			eprintln!("run {} total {:?}", run, t_build.elapsed());
 		}
@@ -1061,6 +1101,27 @@ fn run(out: &mut Out, rng: &mut Rng, work: &str, cfg: &RunCfg, stats: &mut BTree
 	}
 
 	// --- the twin gets the same extra blocks sequentially, never having compacted
+	if let (Some(g), Some(twin)) = (&gfork, twin_keep.as_ref()) {
+		// the reference node gets the fork in order
+		for id in g.iter() {
+			let r = twin.deliver_block(&kit.blks[*id].block);
+			out.line(&format!("chain deliver {} b{}", twin_name, id), &r);
+		}
+		let obs_g = twin.obs(kit);
+		out.line(&format!("chain obs {}", twin_name), &obs_g);
+		let roots_g = twin.roots();
+		for (n, o, r) in op_results.iter() {
+			out.line(&format!("chain obs {}", twin_name), o);
+			if *o != obs_g || *r != roots_g {
+				out.raw(&format!(
+					"#ORACLE-FAIL C17 run={} seed={} threads={}: orphan-pattern: after the fork b{}-b{}-b{} was delivered out of order (header of the first block, then its descendants, then the first block) the state differs from the reference node fed in order: {} roots {} / reference {} roots {}",
+					run, seed_from_env(), n, g[0], g[1], g[2], o, r, obs_g, roots_g
+				));
+			}
+		}
+		*stats.entry("orphan-pattern:twin-compared".into()).or_insert(0) += op_results.len() as u64;
+		out.flush();
+	}
 	if let (Some((t_id, x_id, y_id, bs)), Some(twin)) = (&xreorg, twin_keep) {
 		let r = twin.deliver_block(&kit.blks[*t_id].block);
 		out.line(&format!("chain deliver {} b{}", twin_name, t_id), &r);
@@ -1109,6 +1170,179 @@ fn run(out: &mut Out, rng: &mut Rng, work: &str, cfg: &RunCfg, stats: &mut BTree
 		*stats.entry("xreorg:twin-compared".into()).or_insert(0) += xr_results.len() as u64;
 		out.flush();
 	}
+}
+
+
+/// C17, final state equals a sequential ordering when a competing fork arrives out of order from
+/// several peer threads.  After the concurrent phase (head = `best`): (A) one peer announces the
+/// HEADER of the first fork block G1 (header first); (B) two peers concurrently deliver the
+/// descendants - one G2 then G3, the other duplicates of them - which are pooled as orphans (their
+/// parent block is missing); (C) two peers concurrently deliver the full block G1, whose work does
+/// not exceed the head's, so it does not become head, while a third peer reads; the pooled
+/// descendants carry more work than the head.  Afterwards the orphan pool must be empty, the head
+/// must be the fork tip G3 and `validate` must pass; the caller compares with the reference node
+/// that got G1, G2, G3 in order.  Returns (observation, roots).
+#[allow(clippy::too_many_arguments)]
+fn orphan_pattern(out: &mut Out, shared: &Arc<Shared>, kit: &Kit, g: [usize; 3], best: usize, run: usize, n: usize, stats: &mut BTreeMap<String, u64>) -> (String, String) {
+	let c = &shared.chain;
+	let tag = format!("#ORACLE-FAIL C17 run={} seed={} threads={}: orphan-pattern:", run, seed_from_env(), n);
+	let head0 = c.head().unwrap();
+	if kit.bid(&head0.last_block_h) != format!("b{}", best) {
+		out.raw(&format!("{} head before the pattern is {} not b{}", tag, kit.bid(&head0.last_block_h), best));
+	}
+	let pool0 = c.orphans_len();
+	*stats.entry(format!("orphan-pattern:pool-before={}", pool0)).or_insert(0) += 1;
+	// what one peer thread does; every call under catch_unwind
+	#[derive(Clone)]
+	enum P {
+		Hdr(usize),
+		Blk(usize),
+		Read,
+	}
+	let run_stage = |out: &mut Out, stage: &str, progs: Vec<Vec<P>>| -> Vec<Vec<String>> {
+		let k = progs.len();
+		let gate = Arc::new(std::sync::Barrier::new(k));
+		let (txc, rxc) = mpsc::channel::<(usize, Vec<String>)>();
+		for (i, prog) in progs.into_iter().enumerate() {
+			let sh = shared.clone();
+			let gate = gate.clone();
+			let txc = txc.clone();
+			let blocks: Vec<(P, Option<Block>)> = prog
+				.iter()
+				.map(|p| match p {
+					P::Hdr(id) | P::Blk(id) => (p.clone(), Some(kit.blks[*id].block.clone())),
+					P::Read => (p.clone(), None),
+				})
+				.collect();
+			std::thread::spawn(move || {
+				setup_globals();
+				gate.wait();
+				let mut res = vec![];
+				for (p, blk) in blocks {
+					let r = std::panic::catch_unwind(AssertUnwindSafe(|| match (&p, blk) {
+						(P::Hdr(_), Some(b)) => cls(&sh.chain.process_block_header(&b.header, Options::SKIP_POW)),
+						(P::Blk(_), Some(b)) => match sh.chain.process_block(b, Options::SKIP_POW) {
+							Ok(Some(_)) => "ok:head".to_string(),
+							Ok(None) => "ok:fork".to_string(),
+							Err(e) => format!("err:{}", error_class(&e)),
+						},
+						_ => {
+							// the usual reader invariants: the head names a stored block, roots match under one view
+							let h = sh.chain.head().unwrap();
+							let stored = sh.chain.get_block(&h.last_block_h).is_ok();
+							let hh = sh.chain.head_header().map(|x| x.height).unwrap_or(0);
+							if stored && hh >= h.height {
+								"read:ok".to_string()
+							} else {
+								format!("read:BAD head {} stored={} head_header height {}", h.height, stored, hh)
+							}
+						}
+					}));
+					res.push(match r {
+						Ok(s) => s,
+						Err(e) => format!(
+							"panic:{}",
+							if let Some(s) = e.downcast_ref::<&str>() {
+								s.to_string()
+							} else if let Some(s) = e.downcast_ref::<String>() {
+								s.clone()
+							} else {
+								"?".to_string()
+							}
+						),
+					});
+				}
+				let _ = txc.send((i, res));
+			});
+		}
+		drop(txc);
+		let mut all = vec![vec![]; k];
+		for _ in 0..k {
+			match rxc.recv_timeout(Duration::from_secs(30)) {
+				Ok((i, r)) => all[i] = r,
+				Err(_) => {
+					out.raw(&format!("{} stage {} does not return (30 s)", tag, stage));
+					out.flush();
+					std::process::exit(0);
+				}
+			}
+		}
+		for (i, rs) in all.iter().enumerate() {
+			for r in rs {
+				if r.starts_with("panic:") || r.starts_with("read:BAD") {
+					out.raw(&format!("{} stage {} peer {}: {}", tag, stage, i, r));
+				}
+			}
+		}
+		all
+	};
+	// (A) header first
+	let a = run_stage(out, "A(header of the first fork block)", vec![vec![P::Hdr(g[0])]]);
+	if a[0][0] != "ok" {
+		out.raw(&format!("{} the header of b{} was answered {}", tag, g[0], a[0][0]));
+	}
+	// (B) the descendants before the block itself: pooled
+	let bres = run_stage(
+		out,
+		"B(descendants before their parent)",
+		vec![vec![P::Blk(g[1]), P::Blk(g[2])], vec![P::Read, P::Blk(g[1]), P::Blk(g[2]), P::Read]],
+	);
+	if bres[0] != vec!["err:Orphan".to_string(), "err:Orphan".to_string()] {
+		out.raw(&format!("{} the descendants b{}, b{} delivered before their parent were answered {:?} (expected Orphan twice)", tag, g[1], g[2], bres[0]));
+	}
+	for r in bres[1].iter() {
+		*stats.entry(format!("orphan-pattern:second-peer:{}", r)).or_insert(0) += 1;
+	}
+	let pooled: Vec<bool> = g[1..].iter().map(|id| c.is_orphan(&kit.blks[*id].block.hash())).collect();
+	if pooled != vec![true, true] {
+		out.raw(&format!("{} after stage B the orphan pool holds b{}: {}, b{}: {}", tag, g[1], pooled[0], g[2], pooled[1]));
+	}
+	let head_b = c.head().unwrap();
+	if head_b.last_block_h != head0.last_block_h {
+		out.raw(&format!("{} the head moved to {} while the fork's first block is still missing", tag, kit.bid(&head_b.last_block_h)));
+	}
+	// (C) the first fork block, from two peers at once, a third one reading
+	let cres = run_stage(
+		out,
+		"C(the first fork block)",
+		vec![vec![P::Blk(g[0])], vec![P::Blk(g[0])], vec![P::Read, P::Read, P::Read]],
+	);
+	for r in cres[0].iter().chain(cres[1].iter()) {
+		*stats.entry(format!("orphan-pattern:first-block:{}", r)).or_insert(0) += 1;
+		if !(r == "ok:fork" || r == "err:Unfit") {
+			out.raw(&format!("{} the first fork block b{} (work {} <= head work {}) was answered {}", tag, g[0], kit.blks[g[0]].work, kit.blks[best].work, r));
+		}
+	}
+	if !cres[0].iter().chain(cres[1].iter()).any(|r| r == "ok:fork") {
+		out.raw(&format!("{} neither peer's delivery of b{} was accepted as a fork block: {:?} {:?}", tag, g[0], cres[0], cres[1]));
+	}
+	// --- afterwards
+	let pool = c.orphans_len();
+	let head = c.head().unwrap();
+	if pool != 0 {
+		out.raw(&format!(
+			"{} the orphan pool still holds {} block(s) (b{} pooled: {}, b{} pooled: {}) after their parent b{} was accepted; head {}",
+			tag, pool, g[1], c.is_orphan(&kit.blks[g[1]].block.hash()), g[2], c.is_orphan(&kit.blks[g[2]].block.hash()), g[0], kit.bid(&head.last_block_h)
+		));
+	}
+	if kit.bid(&head.last_block_h) != format!("b{}", g[2]) {
+		out.raw(&format!(
+			"{} head is {} (work {}) but the fork tip b{} carries more work ({}): the pooled descendants were not applied",
+			tag, kit.bid(&head.last_block_h), head.total_difficulty.to_num(), g[2], kit.blks[g[2]].work
+		));
+	}
+	// (full validation of the same tree was done at the end of the concurrent phase; the three
+	// blocks added here are verified when they are processed: the fast mode - sums, roots, MMR
+	// consistency - is what can depend on the arrival order; full mode in the thorough tier)
+	let fast = !tier_thorough();
+	match std::panic::catch_unwind(AssertUnwindSafe(|| c.validate(fast))) {
+		Ok(Ok(())) => {}
+		Ok(Err(e)) => out.raw(&format!("{} validate({}) fails: {}", tag, fast, error_class(&e))),
+		Err(_) => out.raw(&format!("{} validate({}) panicked", tag, fast)),
+	}
+	*stats.entry("orphan-pattern:runs".into()).or_insert(0) += 1;
+	*stats.entry(format!("orphan-pattern:pool-after={}", pool)).or_insert(0) += 1;
+	(chain_obs(c, kit), chain_roots(c))
 }
 
 #[derive(Default)]
@@ -1835,6 +2069,534 @@ fn txcount(out: &mut Out, work: &str, seed: u64, thorough: bool) {
 	std::process::exit(0);
 }
 
+
+// ---------------------------------------------------------------------------------------------
+// run `segcache`: `Chain::segmenter()` keeps a cached Segmenter (`pibd_segmenter`) keyed by the
+// archive header, which is derived from the head HEIGHT.  Main chain of 30 blocks (a transaction
+// spending the genesis coinbase at height 7, random ones later), archive height 10; the cache is
+// populated; a fork rooted at height 5 - below the archive header, a reorg deeper than the
+// state-sync threshold 20 - with the same work per height and a heavier last block (it overtakes
+// only with its last block, height 30: the archive HEIGHT stays 10, the archive HEADER changes) is
+// delivered by one thread while a second one calls `segmenter()` in a loop and a third one checks
+// the reader invariants.  After the joins: `segmenter().header()` == `get_header_by_height(10)` ==
+// `txhashset_archive_header()` == the fork's block 10, and a fresh node is state-synced from the
+// segments the (cached) segmenter serves, at small segment heights: every bitmap / output /
+// rangeproof / kernel segment must be accepted by the receiving node's desegmenter, i.e. validate
+// against the CURRENT archive header's roots, and the assembled state must have those roots.
+// ---------------------------------------------------------------------------------------------
+fn segcache(out: &mut Out, work: &str, seed: u64, thorough: bool) {
+	use grin_chain::pibd_params::verif_hooks::set_segment_heights;
+	use grin_chain::types::SyncState;
+	use grin_core::core::pmmr::segment::SegmentType;
+	use grin_util::StopState;
+	let rounds = if thorough { 3 } else { 1 };
+	let mut stats: BTreeMap<String, u64> = BTreeMap::new();
+	let mut rng = Rng::new(seed ^ 0x5E6C);
+	for round in 0..rounds {
+		let tag = format!("#ORACLE-FAIL C17 segcache round={} seed={}:", round, seed);
+		let kit = Kit::new(&format!("{}/sc_builder{}", work, round));
+		let mut b = Builder { kit, states: BTreeMap::new(), stats: BTreeMap::new(), reserved: Default::default() };
+		let mut s0 = BTreeMap::new();
+		s0.insert(0usize, (0u64, true));
+		b.states.insert(0, s0);
+		let fork_h = 5u64;
+		let top = 30u64;
+		let diff = 3u64;
+		// --- main chain
+		let mut main = vec![0usize];
+		let mut tip = 0usize;
+		for h in 1..=top {
+			let id = if h == 7 {
+				// the early spend: the genesis coinbase (only on the main chain)
+				let v = b.kit.outs[0].value;
+				let specs = vec![TxSpec { inputs: vec![0], outputs: vec![(v / 3, None), (v - v / 3 - 2, None)], kernel: KSpec::Plain(2) }];
+				match b.kit.new_block(tip, diff, &specs) {
+					Ok(id) => {
+						let st = state_after(&b.kit, &b.states[&tip], &b.kit.blks[id].block);
+						b.states.insert(id, st);
+						Some(id)
+					}
+					Err(_) => b.add(&mut rng, tip, diff, 0),
+				}
+			} else {
+				b.add(&mut rng, tip, diff, if h > 7 { 1 } else { 0 })
+			};
+			match id {
+				Some(id) => {
+					tip = id;
+					main.push(id);
+				}
+				None => panic!("segcache: cannot build the main chain"),
+			}
+		}
+		// --- the fork: same work per height, heavier last block; other transactions
+		let mut fork: Vec<usize> = vec![];
+		let mut ftip = main[fork_h as usize];
+		for h in (fork_h + 1)..=top {
+			let d = if h == top { diff + rng.range(1, 3) } else { diff };
+			match b.add(&mut rng, ftip, d, if h % 3 == 0 { 1 } else { 0 }) {
+				Some(id) => {
+					ftip = id;
+					fork.push(id);
+				}
+				None => panic!("segcache: cannot build the fork"),
+			}
+		}
+		let kit = &b.kit;
+		let work_main = kit.blks[tip].work;
+		for (i, id) in fork.iter().enumerate() {
+			let overtakes = kit.blks[*id].work > work_main;
+			if overtakes != (i + 1 == fork.len()) {
+				out.raw(&format!("#STAT segcache:WARNING fork block {} of {} overtakes={} (scenario not as intended)", i + 1, fork.len(), overtakes));
+			}
+		}
+		// --- describe the tree, feed the main chain
+		out.raw("chain reset");
+		for l in kit.out_lines(0) {
+			out.raw(&l);
+		}
+		for id in 0..kit.blks.len() {
+			out.raw(&kit.blk_line(id));
+		}
+		let name = format!("sg{}", round);
+		let subj = Subject::new(&format!("{}/sc_subject{}", work, round), &kit.genesis);
+		out.raw(&format!("chain new {}", name));
+		for id in main[1..].iter() {
+			let r = subj.deliver_block(&kit.blks[*id].block);
+			out.line(&format!("chain deliver {} b{}", name, id), &r);
+		}
+		let archive_h = 10u64;
+		let main10 = kit.blks[main[archive_h as usize]].block.header.clone();
+		let fork10 = kit.blks[fork[(archive_h - fork_h - 1) as usize]].block.header.clone();
+		assert!(fork10.height == archive_h && main10.hash() != fork10.hash());
+		// --- populate the cache
+		let mut pre_valid = false;
+		match subj.c().segmenter() {
+			Ok(sg) => {
+				match bitmap_segment_ok(&sg, sg.header()) {
+					Ok(()) => pre_valid = true,
+					Err(e) => out.raw(&format!("{} before the reorg the bitmap segment served by segmenter() does not validate against its own header: {}", tag, e)),
+				}
+				if sg.header().hash() != main10.hash() {
+					out.raw(&format!("{} before the reorg segmenter().header() is at height {} hash {} but the archive header is the main chain's block 10", tag, sg.header().height, sg.header().hash()));
+				}
+				let _ = sg.kernel_segment(SegmentIdentifier { height: 1, idx: 0 });
+			}
+			Err(e) => out.raw(&format!("{} segmenter() failed before the reorg: {}", tag, error_class(&e))),
+		}
+		// --- concurrent phase
+		let subj = Arc::new(subj);
+		let done = Arc::new(AtomicBool::new(false));
+		let (txc, rxc) = mpsc::channel::<(usize, Vec<String>, Vec<String>)>();
+		{
+			// T0: the fork, in order
+			let subj = subj.clone();
+			let done = done.clone();
+			let txc = txc.clone();
+			let blocks: Vec<Block> = fork.iter().map(|i| kit.blks[*i].block.clone()).collect();
+			std::thread::spawn(move || {
+				setup_globals();
+				let mut res = vec![];
+				let mut bad = vec![];
+				for blk in blocks {
+					let r = std::panic::catch_unwind(AssertUnwindSafe(|| subj.deliver_block(&blk)));
+					match r {
+						Ok(s) => res.push(s),
+						Err(_) => {
+							bad.push(format!("process_block of fork block at height {} panicked", blk.header.height));
+							res.push("panic".into());
+						}
+					}
+					std::thread::yield_now();
+				}
+				done.store(true, Ordering::SeqCst);
+				let _ = txc.send((0, res, bad));
+			});
+		}
+		{
+			// T1: segmenter() in a loop
+			let subj = subj.clone();
+			let done = done.clone();
+			let txc = txc.clone();
+			let (m10, f10) = (main10.hash(), fork10.hash());
+			std::thread::spawn(move || {
+				setup_globals();
+				let mut seen: Vec<String> = vec![];
+				let mut bad = vec![];
+				let mut n = 0u64;
+				loop {
+					let fin = done.load(Ordering::SeqCst);
+					let r = std::panic::catch_unwind(AssertUnwindSafe(|| {
+						subj.c().segmenter().map(|sg| {
+							let h = sg.header().hash();
+							let k = sg.kernel_segment(SegmentIdentifier { height: 1, idx: 0 }).is_ok();
+							let bm = sg.bitmap_segment(SegmentIdentifier { height: 0, idx: 0 }).is_ok();
+							(h, sg.header().height, k, bm)
+						})
+					}));
+					n += 1;
+					match r {
+						Ok(Ok((h, height, _k, _bm))) => {
+							let who = if h == m10 {
+								"main10"
+							} else if h == f10 {
+								"fork10"
+							} else {
+								bad.push(format!("segmenter().header() is neither chain's block 10: height {} hash {}", height, h));
+								"other"
+							};
+							if seen.last().map(|s| s.as_str()) != Some(who) {
+								seen.push(who.to_string());
+							}
+						}
+						Ok(Err(e)) => bad.push(format!("segmenter() failed during the reorg: {}", error_class(&e))),
+						Err(_) => bad.push("segmenter() panicked during the reorg".to_string()),
+					}
+					if fin {
+						break;
+					}
+				}
+				seen.push(format!("calls={}", n));
+				let _ = txc.send((1, seen, bad));
+			});
+		}
+		{
+			// T2: reader invariants
+			let subj = subj.clone();
+			let done = done.clone();
+			let txc = txc.clone();
+			std::thread::spawn(move || {
+				setup_globals();
+				let mut bad = vec![];
+				let mut last_work = 0u64;
+				let mut n = 0u64;
+				while !done.load(Ordering::SeqCst) {
+					let r = std::panic::catch_unwind(AssertUnwindSafe(|| {
+						let h = subj.c().head().unwrap();
+						let stored = subj.c().get_block(&h.last_block_h).is_ok();
+						let by_height = subj.c().get_header_by_height(h.height).map(|x| x.height).unwrap_or(u64::MAX);
+						(h.total_difficulty.to_num(), h.height, stored, by_height)
+					}));
+					n += 1;
+					match r {
+						Ok((w, height, stored, _)) => {
+							if !stored {
+								bad.push(format!("head at height {} names a block that is not stored", height));
+							}
+							if w < last_work {
+								bad.push(format!("head work decreased {} -> {}", last_work, w));
+							}
+							last_work = w;
+						}
+						Err(_) => bad.push("a reader panicked".to_string()),
+					}
+					std::thread::yield_now();
+				}
+				let _ = txc.send((2, vec![format!("reads={}", n)], bad));
+			});
+		}
+		drop(txc);
+		let mut fork_res: Vec<String> = vec![];
+		for _ in 0..3 {
+			match rxc.recv_timeout(Duration::from_secs(if thorough { 180 } else { 90 })) {
+				Ok((i, res, bad)) => {
+					for m in bad {
+						out.raw(&format!("{} {}", tag, m));
+					}
+					match i {
+						0 => fork_res = res,
+						1 => {
+							*stats.entry(format!("segcache:segmenter-headers-seen={}", res.join(">"))).or_insert(0) += 1;
+						}
+						_ => {
+							*stats.entry(format!("segcache:reader:{}", res.join(","))).or_insert(0) += 1;
+						}
+					}
+				}
+				Err(_) => {
+					out.raw(&format!("{} the threads (fork delivery / segmenter() loop / reader) do not finish", tag));
+					out.flush();
+					std::process::exit(0);
+				}
+			}
+		}
+		for (i, id) in fork.iter().enumerate() {
+			out.line(&format!("chain deliver {} b{}", name, id), fork_res.get(i).map(|s| s.as_str()).unwrap_or("missing"));
+		}
+		let c = subj.c();
+		out.line(&format!("chain obs {}", name), &subj.obs(kit));
+		let head = c.head().unwrap();
+		if kit.bid(&head.last_block_h) != format!("b{}", ftip) {
+			out.raw(&format!("{} head after the deep reorg is {} not the fork tip b{}", tag, kit.bid(&head.last_block_h), ftip));
+		}
+		// --- the three views of the archive header
+		let ah = c.txhashset_archive_header();
+		let bh = c.get_header_by_height(archive_h);
+		let sh = c.segmenter().map(|sg| sg.header().clone());
+		match (&ah, &bh, &sh) {
+			(Ok(a), Ok(bb), Ok(sg)) => {
+				if a.hash() != fork10.hash() || bb.hash() != fork10.hash() || sg.hash() != fork10.hash() {
+					let nm = |h: &BlockHeader| if h.hash() == fork10.hash() { "fork block 10".to_string() } else if h.hash() == main10.hash() { "MAIN chain block 10 (reorged out)".to_string() } else { format!("height {} {}", h.height, h.hash()) };
+					out.raw(&format!(
+						"{} after the reorg to the fork (archive height still {}): txhashset_archive_header() = {}, get_header_by_height({}) = {}, segmenter().header() = {}",
+						tag, archive_h, nm(a), archive_h, nm(bb), nm(sg)
+					));
+				} else {
+					*stats.entry("segcache:three-views-agree".into()).or_insert(0) += 1;
+				}
+			}
+			_ => out.raw(&format!("{} archive header views failed: {:?} {:?} {:?}", tag, ah.as_ref().map(|h| h.height).map_err(error_class), bh.as_ref().map(|h| h.height).map_err(error_class), sh.as_ref().map(|h| h.height).map_err(error_class))),
+		}
+		// --- the known defect (see `segcache_probe`): a segmenter() call that fell between the header
+		// step and the body step of the reorging block has cached a segmenter for the right header
+		// with the wrong bitmap snapshot.  Recognised by: pre-reorg segmenter valid, header now the
+		// right one, its bitmap segment invalid.  Reported as a probe of that finding; the state sync
+		// from this cache is then pointless and skipped.
+		let views_ok = matches!((&ah, &bh, &sh), (Ok(a), Ok(bb), Ok(sg)) if a.hash() == fork10.hash() && bb.hash() == fork10.hash() && sg.hash() == fork10.hash());
+		if views_ok && pre_valid {
+			if let Ok(sg) = c.segmenter() {
+				if let Err(e) = bitmap_segment_ok(&sg, sg.header()) {
+					out.raw(&format!(
+						"#KNOWN-PROBE C17 segmenter-cache-poisoned-header-ahead: segcache round {} (by timing): a segmenter() call of the looping thread fell between the header step and the body step of the reorging fork block; the cached segmenter has the current archive header (fork block 10) but its bitmap segment does not validate against it: {}",
+						round, e
+					));
+					*stats.entry("segcache:KNOWN-DEFECT cache poisoned by a call in the header-ahead window (state sync skipped)".into()).or_insert(0) += 1;
+					out.flush();
+					continue;
+				}
+			}
+		}
+		// --- state sync of a fresh node from the segments the segmenter serves
+		let dest = Subject::new(&format!("{}/sc_dest{}", work, round), &kit.genesis);
+		let mut path: Vec<usize> = main[1..=(fork_h as usize)].to_vec();
+		path.extend(fork.iter().cloned());
+		let headers: Vec<BlockHeader> = path.iter().map(|i| kit.blks[*i].block.header.clone()).collect();
+		let r = dest.sync_headers(&headers);
+		if r != "ok" {
+			out.raw(&format!("{} harness: header sync of the receiving node failed: {}", tag, r));
+			continue;
+		}
+		let ah2 = dest.c().txhashset_archive_header_header_only().unwrap();
+		if ah2.hash() != fork10.hash() {
+			out.raw(&format!("{} harness: the receiving node's archive header is not the fork's block 10", tag));
+			continue;
+		}
+		set_segment_heights(Some((0, 2, 2, 1)));
+		let deseg = dest.c().desegmenter(&ah2).unwrap();
+		let mut complete = false;
+		let mut served: BTreeMap<&'static str, u64> = BTreeMap::new();
+		let mut rejected = 0u64;
+		for _round in 0..80 {
+			let wanted: Vec<(SegmentType, SegmentIdentifier)> = match deseg.write().as_mut() {
+				Some(d) => d.next_desired_segments(12).iter().map(|x| (x.segment_type.clone(), x.identifier)).collect(),
+				None => vec![],
+			};
+			for (t, id) in wanted {
+				// always through Chain::segmenter(): the cache is what is under test
+				let sg = match c.segmenter() {
+					Ok(sg) => sg,
+					Err(e) => {
+						out.raw(&format!("{} segmenter() failed after the reorg: {}", tag, error_class(&e)));
+						break;
+					}
+				};
+				let mut guard = deseg.write();
+				let d = match guard.as_mut() {
+					Some(d) => d,
+					None => break,
+				};
+				let (kind, res): (&'static str, Result<(), String>) = match t {
+					SegmentType::Bitmap => ("bitmap", match sg.bitmap_segment(id) {
+						Ok((seg, root)) => d.add_bitmap_segment(seg, root).map_err(|e| error_class(&e)),
+						Err(e) => Err(format!("not served: {}", error_class(&e))),
+					}),
+					SegmentType::Output => ("output", match sg.output_segment(id) {
+						Ok((seg, root)) => d.add_output_segment(seg, Some(root)).map_err(|e| error_class(&e)),
+						Err(e) => Err(format!("not served: {}", error_class(&e))),
+					}),
+					SegmentType::RangeProof => ("rangeproof", match sg.rangeproof_segment(id) {
+						Ok(seg) => d.add_rangeproof_segment(seg).map_err(|e| error_class(&e)),
+						Err(e) => Err(format!("not served: {}", error_class(&e))),
+					}),
+					SegmentType::Kernel => ("kernel", match sg.kernel_segment(id) {
+						Ok(seg) => d.add_kernel_segment(seg).map_err(|e| error_class(&e)),
+						Err(e) => Err(format!("not served: {}", error_class(&e))),
+					}),
+				};
+				*served.entry(kind).or_insert(0) += 1;
+				if let Err(e) = res {
+					rejected += 1;
+					if rejected <= 4 {
+						out.raw(&format!(
+							"{} the {} segment ({},{}) served by Chain::segmenter() (its header: height {} {}) does not validate against the current archive header (height {} {}): {}",
+							tag, kind, id.height, id.idx, sg.header().height, sg.header().hash(), ah2.height, ah2.hash(), e
+						));
+					}
+				}
+			}
+			let mut guard = deseg.write();
+			if let Some(d) = guard.as_mut() {
+				match std::panic::catch_unwind(AssertUnwindSafe(|| d.apply_next_segments())) {
+					Ok(_) => {}
+					Err(_) => out.raw(&format!("{} apply_next_segments panicked", tag)),
+				}
+				complete = matches!(d.check_progress(Arc::new(SyncState::new())), Ok(true));
+			}
+			if complete || rejected > 0 {
+				break;
+			}
+		}
+		set_segment_heights(None);
+		let sv: Vec<String> = served.iter().map(|(k, v)| format!("{}={}", k, v)).collect();
+		*stats.entry(format!("segcache:segments-served {}", sv.join(" "))).or_insert(0) += 1;
+		let mut verdict = "ok".to_string();
+		if rejected > 0 {
+			verdict = "stale-segments".to_string();
+		} else if !complete {
+			out.raw(&format!("{} the receiving node's desegmenter is not complete after 80 rounds (served {:?})", tag, served));
+			verdict = "incomplete".to_string();
+		} else {
+			if let Some(d) = deseg.read().as_ref() {
+				if let Err(e) = d.check_update_leaf_set_state() {
+					out.raw(&format!("{} check_update_leaf_set_state failed: {}", tag, error_class(&e)));
+				}
+			}
+			let fin = {
+				let guard = deseg.read();
+				let d = guard.as_ref().unwrap();
+				std::panic::catch_unwind(AssertUnwindSafe(|| d.validate_complete_state(Arc::new(SyncState::new()), Arc::new(StopState::new()))))
+			};
+			match fin {
+				Ok(Ok(())) => {}
+				Ok(Err(e)) => {
+					out.raw(&format!("{} the state assembled from the served segments does not validate: {}", tag, error_class(&e)));
+					verdict = "invalid-state".to_string();
+				}
+				Err(_) => {
+					out.raw(&format!("{} validate_complete_state panicked", tag));
+					verdict = "panic".to_string();
+				}
+			}
+			let roots_ok = dest.c().txhashset().read().roots().map(|r| r.validate(&ah2).is_ok()).unwrap_or(false);
+			if !roots_ok {
+				out.raw(&format!("{} the state assembled from the served segments has other roots than the current archive header", tag));
+				verdict = "wrong-roots".to_string();
+			}
+		}
+		if let Err(e) = c.validate(false) {
+			out.raw(&format!("{} validate(false) of the serving node fails after the deep reorg: {}", tag, error_class(&e)));
+		}
+		out.line(&format!("conc segcache round={} archive_height={} fork_from={} top={}", round, archive_h, fork_h, top), &verdict);
+		*stats.entry(format!("segcache:fork-deliveries fork={} head={}", fork_res.iter().filter(|r| *r == "ok:fork").count(), fork_res.iter().filter(|r| *r == "ok:head").count())).or_insert(0) += 1;
+		out.flush();
+	}
+	for (k, v) in &stats {
+		out.raw(&format!("#STAT {}={}", k, v));
+	}
+	out.flush();
+}
+
+
+/// validate a bitmap segment the way the desegmenter does, against `header`
+fn bitmap_segment_ok(sg: &grin_chain::txhashset::Segmenter, header: &BlockHeader) -> Result<(), String> {
+	let n_leaves = grin_core::core::pmmr::n_leaves(header.output_mmr_size);
+	let n_chunks = (n_leaves + 1023) / 1024;
+	let bitmap_mmr_size = 2 * n_chunks - (n_chunks.count_ones() as u64);
+	match sg.bitmap_segment(SegmentIdentifier { height: 0, idx: 0 }) {
+		Ok((seg, out_root)) => seg
+			.validate_with(bitmap_mmr_size, None, header.output_root, header.output_mmr_size, out_root, true)
+			.map_err(|e| format!("{:?}", e)),
+		Err(e) => Err(format!("not served: {}", error_class(&e))),
+	}
+}
+
+/// Deterministic, single-threaded reproduction of what the concurrent part of `segcache` hits by
+/// timing: the HEADER chain is ahead of the body on another fork (header-first delivery of the last
+/// fork block; the same state exists inside process_block between its header step and its body
+/// step) when `segmenter()` is called.
+fn segcache_probe(out: &mut Out, work: &str, seed: u64) {
+	let mut rng = Rng::new(seed ^ 0x9B0B);
+	let kit = Kit::new(&format!("{}/sp_builder", work));
+	let mut b = Builder { kit, states: BTreeMap::new(), stats: BTreeMap::new(), reserved: Default::default() };
+	let mut s0 = BTreeMap::new();
+	s0.insert(0usize, (0u64, true));
+	b.states.insert(0, s0);
+	let (fork_h, top, diff) = (5u64, 30u64, 3u64);
+	let mut main = vec![0usize];
+	let mut tip = 0usize;
+	for h in 1..=top {
+		let id = if h == 7 {
+			let v = b.kit.outs[0].value;
+			let specs = vec![TxSpec { inputs: vec![0], outputs: vec![(v - 2, None)], kernel: KSpec::Plain(2) }];
+			b.kit.new_block(tip, diff, &specs).ok().map(|id| {
+				let st = state_after(&b.kit, &b.states[&tip], &b.kit.blks[id].block);
+				b.states.insert(id, st);
+				id
+			})
+		} else {
+			b.add(&mut rng, tip, diff, 0)
+		};
+		tip = id.expect("probe main chain");
+		main.push(tip);
+	}
+	let mut fork = vec![];
+	let mut ftip = main[fork_h as usize];
+	for h in (fork_h + 1)..=top {
+		ftip = b.add(&mut rng, ftip, if h == top { diff + 1 } else { diff }, 0).expect("probe fork");
+		fork.push(ftip);
+	}
+	let kit = &b.kit;
+	let subj = Subject::new(&format!("{}/sp_subject", work), &kit.genesis);
+	for id in main[1..].iter().chain(fork[..fork.len() - 1].iter()) {
+		let _ = subj.deliver_block(&kit.blks[*id].block);
+	}
+	let c = subj.c();
+	let main10 = kit.blks[main[10]].block.header.clone();
+	let fork10 = kit.blks[fork[(10 - fork_h - 1) as usize]].block.header.clone();
+	let last = &kit.blks[*fork.last().unwrap()].block;
+	let nm = |h: &BlockHeader| {
+		if h.hash() == fork10.hash() {
+			"fork-block-10"
+		} else if h.hash() == main10.hash() {
+			"main-block-10"
+		} else {
+			"other"
+		}
+	};
+	let s1 = c.segmenter().map(|sg| (nm(sg.header()), bitmap_segment_ok(&sg, sg.header())));
+	// header first: the header chain moves to the fork, the body stays on the main chain
+	let hr = subj.deliver_header(&last.header);
+	let body_head = kit.bid(&c.head().unwrap().last_block_h);
+	let ah = c.txhashset_archive_header().map(|h| nm(&h));
+	let s2 = c.segmenter().map(|sg| (nm(sg.header()), bitmap_segment_ok(&sg, sg.header())));
+	// the body follows
+	let br = subj.deliver_block(last);
+	let ah3 = c.txhashset_archive_header();
+	let s3 = c.segmenter().map(|sg| (nm(sg.header()), bitmap_segment_ok(&sg, sg.header())));
+	let show = |s: &Result<(&str, Result<(), String>), grin_chain::Error>| match s {
+		Ok((h, v)) => format!("header={} bitmap-segment={}", h, match v { Ok(()) => "valid".to_string(), Err(e) => format!("INVALID({})", e) }),
+		Err(e) => format!("err:{}", error_class(e)),
+	};
+	out.raw(&format!(
+		"#STAT segcache:probe main chain 30 delivered, fork 6..29 delivered: segmenter() {}; header of fork block 30 alone ({}): body head {} txhashset_archive_header()={:?} segmenter() {}; then the block itself ({}): txhashset_archive_header()={} segmenter() {}",
+		show(&s1), hr, body_head, ah.as_ref().map_err(error_class), show(&s2), br,
+		ah3.as_ref().map(|h| nm(h)).unwrap_or("err"), show(&s3)
+	));
+	let poisoned = matches!(&s3, Ok((h, Err(_))) if *h == "fork-block-10");
+	let mixed = matches!(&s2, Ok((_, Err(_))));
+	let pre_ok = matches!(&s1, Ok((h, Ok(()))) if *h == "main-block-10");
+	if !pre_ok {
+		out.raw(&format!("#ORACLE-FAIL C17 segcache probe: before any header of a heavier fork is known segmenter() answers {}", show(&s1)));
+	} else if !matches!(&s3, Ok((h, _)) if *h == "fork-block-10") {
+		out.raw(&format!("#ORACLE-FAIL C17 segcache probe: after the reorg to the fork segmenter() answers {} (archive header: fork block 10)", show(&s3)));
+	} else if poisoned || mixed {
+		out.raw(&format!(
+			"#KNOWN-PROBE C17 segmenter-cache-poisoned-header-ahead: segcache probe (single thread): main chain of 30 blocks (genesis coinbase spent at height 7), fork from height 5 delivered up to height 29 (no reorg), then ONLY THE HEADER of fork block 30 (more work: the header chain switches to the fork, the body head stays {}): txhashset_archive_header() answers {:?} (the header MMR's block 10, not an ancestor of the body head) and segmenter() builds and CACHES a segmenter for it from the main chain's txhashset ({}); after the block itself arrives ({}) segmenter() keeps serving that cached one: {} - a bitmap segment that does not validate against the archive header it is cached under",
+			body_head, ah.as_ref().map_err(error_class), show(&s2), br, show(&s3)
+		));
+	}
+}
+
 fn main() {
 	quiet_panics();
 	setup_globals();
@@ -1851,6 +2613,12 @@ fn main() {
 	}
 	if mode == "probe" {
 		probe(&mut out, &work);
+		return;
+	}
+	if mode == "segcache" {
+		segcache(&mut out, &work, seed_from_env(), tier_thorough());
+		segcache_probe(&mut out, &work, seed_from_env());
+		out.flush();
 		return;
 	}
 	if mode == "txcount" {
